@@ -5,11 +5,14 @@
    automaton).
    Integer literals (Model/ReconNum.v): the decimal form every printer writes for an integer value of any kind and
    size, and the tokenizer's integer branches (decimal, 0x, 0b, the kind chosen for the magnitude).
-   Covered by oracles on the real code only (partial): records, floats, blobs, the three printers'
+   Blob literals (Model/ReconBlob.v): '%' and padded base64 as the printers write it, the tokenizer's blob rule with
+   the decoder's canonicity check.
+   Covered by oracles on the real code only (partial): records, floats, the three printers'
    layouts, the incremental decoder against the one-shot parser for every cut, typed values, malformed
    inputs.  Known findings C09-F1..F3 (shapes of records whose printed form does not read back). *)
 From SwimV Require Import Model.ReconText Proofs.ReconTextProofs.
 From SwimV Require Import Model.ReconNum Proofs.ReconNumProofs.
+From SwimV Require Import Model.ReconBlob Proofs.ReconBlobProofs.
 Open Scope N_scope.
 
 (* any text at all - controls, quotes, backslashes, any scalar value, the words true and false, the
@@ -62,6 +65,24 @@ Example C09_integer_nonvacuous :
   value_kind (classify true 9223372036854775808) = VBigInt /\
   nv_eq {| nk := KInt; nz := 5 |} {| nk := KBigUint; nz := 5 |} = true.
 Proof. exact integer_witness. Qed.
+
+(* every byte string, of any length, printed as a blob literal and followed by anything that cannot continue it is
+   read back as exactly those bytes, the rest of the input untouched; and no two byte strings share a literal *)
+Theorem C09_printed_blob_reads_back : forall bs rest, byte_list bs -> blob_follow_ok rest ->
+  blob_token (print_blob bs ++ rest) = (BOk bs, rest).
+Proof. exact printed_blob_reads_back. Qed.
+
+Theorem C09_blob_literal_injective : forall a b, byte_list a -> byte_list b ->
+  print_blob a = print_blob b -> a = b.
+Proof. exact print_blob_injective. Qed.
+
+Example C09_blob_nonvacuous :
+  print_blob [1; 2; 3] = [37; 65; 81; 73; 68] /\
+  print_blob [255] = [37; 47; 119; 61; 61] /\
+  blob_token [37; 65; 81; 73; 68; 44; 49] = (BOk [1; 2; 3], [44; 49]) /\
+  fst (blob_token [37; 81; 82; 61; 61]) = BBad /\
+  blob_token [37] = (BOk [], []).
+Proof. exact blob_witness. Qed.
 
 Example C09_nonvacuous :
   write_string_literal [97; 34; 10; 1; 92] = [34; 97; 92; 34; 92; 110; 92; 117; 48; 48; 48; 49; 92; 92; 34] /\
